@@ -27,6 +27,11 @@ NONTRIVIAL = {
     "c13": lambda i: isinstance(i, dict) and len(i.get("ops") or []) > 1 and len(i.get("mods") or []) > 0,
     "c14": lambda i: isinstance(i, dict) and len(i.get("arts") or []) > 1,
     "c01": lambda i: isinstance(i, dict) and sum(len(f.get("msgs") or []) for f in i.get("files", [])) > 0,
+    "c02": lambda i: isinstance(i, dict) and sum(len(f.get("msgs") or []) for f in i.get("files", [])) > 0,
+    "c03": lambda i: isinstance(i, dict) and sum(len(f.get("msgs") or []) for f in i.get("files", [])) > 0,
+    "c04": lambda i: isinstance(i, dict) and len(i.get("files", [])) > 1,
+    "c08": lambda i: isinstance(i, dict) and sum(len(f.get("msgs") or []) for f in i.get("files", [])) > 0,
+    "c09": lambda i: isinstance(i, dict) and sum(len(f.get("msgs") or []) for f in i.get("files", [])) > 0,
     "c15": lambda i: isinstance(i, dict) and len(i.get("name") or []) > 1,
 }
 
@@ -108,5 +113,45 @@ PROPS = {
         "rule": "curated worlds (Struct/Value/ListValue shape, packageless files, map entry between nested messages, extension-only import, public re-export) + seeded random protodesc-valid worlds (1-5 files, DAG imports with public re-exports, shared/nested/empty packages, proto2 omitted/spelled and proto3, nesting depth <= 4, map entries interleaved among nested types, real and synthetic oneofs, extensions at file and message scope, services, any target subset incl. shuffled order, FileDescriptorSet entry point, bidirectional mode); the real AST is navigated from Packages()/Targets() through every containment accessor, every entity identified by the pointer of the descriptor it exposes; non-trivial = at least one message",
         "level_text": "THEOREMS PENDING (level exploration until proved): executable Lean model of ast.go's hydration (index timeline, every mustSeen at its moment) + declared containment image; Phi_C01 (no failure, targets, packages, exactly-once reachability, every listing = declared children in order, all-listings as multisets) evaluated on every navigated AST.",
         "level_note": "Trusted: protodesc.NewFiles defines 'valid request' (every generated world must pass it); descriptor pointer identity as entity identity.",
+    },
+    "C02": {
+        "engines": [("c02", "main")],
+        "lean": ["PgsVerif.Props.C02"],
+        "category": "exploration",
+        "rule": "curated worlds + seeded random protodesc-valid worlds (see C01: 1-5 files, import DAGs with public re-exports and unused imports, shared/nested/empty packages, both proto2 spellings and proto3, nesting depth <= 4, map entries interleaved among nested types, real/synthetic oneofs, all scalar kinds x labels x map keys, enum/message references to same file / direct imports / publicly re-exported files, recursion, extensions at file and message scope, services, SourceCodeInfo); observed: per entity: FullyQualifiedName, Lookup(key) identity, kind-specific container accessor, File(), Package(), Syntax(), BuildTarget(); Lookup of up to 60 perturbed names (dropped dot, suffix, truncated, nested name at file scope, protobuf-style sibling-scoped enum value names, package names); non-trivial = world with at least one message (C04: at least 2 files)",
+        "level_text": "THEOREMS PENDING (level exploration until proved): executable Lean model of ast.go's hydration and of the accessors compared with the real AST on every generated world; Phi_C02: fqn = container fqn + '.' + name (file: '.'+package or empty), Lookup(key) = the entity, container/file/package/syntax/build-target links = containment, undeclared names not found - evaluated on every observed AST.",
+        "level_note": "Trusted: protodesc.NewFiles defines 'valid request'; descriptor pointer identity as entity identity; protoreflect (protobuf-go v1.23.0) as the reference for 'protobuf's own semantics'.",
+    },
+    "C03": {
+        "engines": [("c03", "main")],
+        "lean": ["PgsVerif.Props.C03"],
+        "category": "exploration",
+        "rule": "curated worlds + seeded random protodesc-valid worlds (see C01: 1-5 files, import DAGs with public re-exports and unused imports, shared/nested/empty packages, both proto2 spellings and proto3, nesting depth <= 4, map entries interleaved among nested types, real/synthetic oneofs, all scalar kinds x labels x map keys, enum/message references to same file / direct imports / publicly re-exported files, recursion, extensions at file and message scope, services, SourceCodeInfo); observed: per field and extension: classification (IsMap/IsRepeated/IsEnum/IsEmbed), ProtoType/ProtoLabel, Enum()/Embed()/Element()/Key() targets by descriptor identity, owner back-links, every accessor of the type called under recover, second opinion from protobuf's own reflection (IsMap/IsList/Kind/Message().FullName) on the same descriptors; methods' input/output; extendees and back-listing; non-trivial = world with at least one message (C04: at least 2 files)",
+        "level_text": "THEOREMS PENDING (level exploration until proved): executable Lean model of ast.go's hydration and of the accessors compared with the real AST on every generated world; Phi_C03: shape table (label, type, referenced message is map entry), targets = THE declared entity of that FQN and kind, owner links, totality, protoreflect agreement, methods, extendee and applied-extension lists - evaluated on every observed AST.",
+        "level_note": "Trusted: protodesc.NewFiles defines 'valid request'; descriptor pointer identity as entity identity; protoreflect (protobuf-go v1.23.0) as the reference for 'protobuf's own semantics'.",
+    },
+    "C04": {
+        "engines": [("c04", "main")],
+        "lean": ["PgsVerif.Props.C04"],
+        "category": "exploration",
+        "rule": "curated worlds + seeded random protodesc-valid worlds (see C01: 1-5 files, import DAGs with public re-exports and unused imports, shared/nested/empty packages, both proto2 spellings and proto3, nesting depth <= 4, map entries interleaved among nested types, real/synthetic oneofs, all scalar kinds x labels x map keys, enum/message references to same file / direct imports / publicly re-exported files, recursion, extensions at file and message scope, services, SourceCodeInfo); observed: per file: Imports (ordered), TransitiveImports, Dependents, UnusedImports (as sets + duplicate flag); per message/field/oneof/service/method/extension: Imports (set + duplicate flag); non-trivial = world with at least one message (C04: at least 2 files)",
+        "level_text": "THEOREMS PENDING (level exploration until proved): executable Lean model of ast.go's hydration and of the accessors compared with the real AST on every generated world; Phi_C04: imports = declared dependencies in order; transitive = closure of the import relation; dependents = reverse closure; entity imports = other files defining the directly referenced types (map: value type); unused = non-public direct imports defining no type referenced by any field, method or extension (type or extendee) of the file - evaluated on every observed AST.",
+        "level_note": "Trusted: protodesc.NewFiles defines 'valid request'; descriptor pointer identity as entity identity; protoreflect (protobuf-go v1.23.0) as the reference for 'protobuf's own semantics'.",
+    },
+    "C08": {
+        "engines": [("c08", "main")],
+        "lean": ["PgsVerif.Props.C08"],
+        "category": "exploration",
+        "rule": "curated worlds + seeded random protodesc-valid worlds (see C01: 1-5 files, import DAGs with public re-exports and unused imports, shared/nested/empty packages, both proto2 spellings and proto3, nesting depth <= 4, map entries interleaved among nested types, real/synthetic oneofs, all scalar kinds x labels x map keys, enum/message references to same file / direct imports / publicly re-exported files, recursion, extensions at file and message scope, services, SourceCodeInfo); observed: per entity the tag of the attached location (or none), per file the syntax/package statement locations; every declaration carries a uniquely tagged location, interleaved with distractors (names, numbers, options, ranges, unknown field numbers, odd and even lengths, option paths below leaf declarations), whole-file location first, rest shuffled; non-trivial = world with at least one message (C04: at least 2 files)",
+        "level_text": "THEOREMS PENDING (level exploration until proved): executable Lean model of ast.go's hydration and of the accessors compared with the real AST on every generated world; Phi_C08: info(entity) = the location whose path is the declaration path, distractors change nothing; syntax/package statement infos = locations [12]/[2] - evaluated on every observed AST.",
+        "level_note": "Trusted: protodesc.NewFiles defines 'valid request'; descriptor pointer identity as entity identity; protoreflect (protobuf-go v1.23.0) as the reference for 'protobuf's own semantics'.",
+    },
+    "C09": {
+        "engines": [("c09", "main")],
+        "lean": ["PgsVerif.Props.C09"],
+        "category": "exploration",
+        "rule": "curated worlds + seeded random protodesc-valid worlds (see C01: 1-5 files, import DAGs with public re-exports and unused imports, shared/nested/empty packages, both proto2 spellings and proto3, nesting depth <= 4, map entries interleaved among nested types, real/synthetic oneofs, all scalar kinds x labels x map keys, enum/message references to same file / direct imports / publicly re-exported files, recursion, extensions at file and message scope, services, SourceCodeInfo); observed: per message field: HasPresence/Required/InOneOf/InRealOneOf/HasOptionalKeyword plus protoreflect's HasPresence/Cardinality/ContainingOneof().IsSynthetic on the same descriptors; per oneof IsSynthetic (+protoreflect); per message IsMapEntry (+protoreflect) and the four listings; per file Syntax; non-trivial = world with at least one message (C04: at least 2 files)",
+        "level_text": "THEOREMS PENDING (level exploration until proved): executable Lean model of ast.go's hydration and of the accessors compared with the real AST on every generated world; Phi_C09: presence iff in a oneof / singular message / singular proto2 / proto3-optional; required; real-vs-synthetic membership; synthetic oneof iff single proto3-optional member; listings partition the fields; proto2 spelled or omitted treated alike; pgs = protoreflect on every answer (HasOptionalKeyword is compared with the model only: protobuf defines it differently for proto2 oneof members and the property does not mention it) - evaluated on every observed AST.",
+        "level_note": "Trusted: protodesc.NewFiles defines 'valid request'; descriptor pointer identity as entity identity; protoreflect (protobuf-go v1.23.0) as the reference for 'protobuf's own semantics'.",
     },
 }
